@@ -168,6 +168,8 @@ fn eval(ctx: &Ctx, case: &Case) -> Verdict {
         let input = format!("c09.{}", case.container.ext());
         let re = cli::sfs(ctx, &["create", "-S", "empty.samples", &input], cli::Input::Null, &dir);
         ensure!(re.clean_failure() && re.stdout.is_empty(), "an empty samples file must be an error: {}", re.describe());
+        let re = cli::sfs(ctx, &["create", "-s", "", &input], cli::Input::Null, &dir);
+        ensure!(re.clean_failure() && re.stdout.is_empty(), "an empty inline sample list (`-s \"\"`) must be an error: {}", re.describe());
     }
 
     let identity = case.col_perm.iter().enumerate().all(|(i, p)| i == *p);
